@@ -24,6 +24,10 @@ func main() {
 		c14child(os.Args[2:])
 		return
 	}
+	if len(os.Args) >= 2 && os.Args[1] == "c03deep" {
+		deepChild(os.Args[2:])
+		return
+	}
 	if len(os.Args) >= 2 && os.Args[1] == "aliaschild" {
 		aliasChild()
 		return
